@@ -148,7 +148,7 @@ def cache_cases(rng, n_files):
 
 
 def run_cache_mode(ctx, rng, quick, scratch, cdir):
-    cases = cache_cases(rng, 130 if quick else 3000)
+    cases = cache_cases(rng, 110 if quick else 3000)
     wit = cache_witness_cases()
     allc = [(bs, f, tab, ops) for _, bs, f, tab, ops in wit] + [c[:4] for c in cases]
     prof = ["wild"] * len(wit) + [c[4] for c in cases]
@@ -327,7 +327,7 @@ def run(ctx):
         for k in range(6):        # around the default block size and the largest one
             f, tab, lines = U.gen_file(rng, 0x10000 if k < 4 else 4096, nmsg=rng.choice([3, 4, 6]), wild=True)
             files.append((f, tab, "large", [0x10000, 0xFFFFFF, 64]))
-    bin_runs = bin_fail = 0
+    bin_runs = bin_fail = bin_hangs = 0
     coq_cross = []
     sizes = {}
     for fi, (f, tab, note, bss) in enumerate(files):
@@ -341,8 +341,11 @@ def run(ctx):
             coq_cross.append((f, tab, exp))
         sizes[len(f) // 1024] = sizes.get(len(f) // 1024, 0) + 1
         for bs in bss:
+            if bin_hangs >= 3:
+                break                      # three hangs of the binary are evidence enough (each costs its timeout)
             rc, out, err = U.run_binary(path, bs)
             bin_runs += 1
+            bin_hangs += 1 if rc == 124 else 0
             ebs = U.BLOCKSZ_DEF if bs is None else bs
             off = 0
             for l in U.py_lines(f):
